@@ -108,7 +108,7 @@ theorem inFragment_sound (p : RBlock) (h : inFragment p = true) :
     running it agrees with the definitional semantics (or stops at the machine's stack limit) -/
 theorem fn_source_program (ast : Block) (r : RBlock) (bc : Bytecode) (hc : compileProgram ast = .ok (r, bc))
     (hin : inFragment r = true) (F : Nat) :
-    (∃ n, ∀ k, ∃ s', runSteps bc.code (n + k) (VM.start {} bc) = .error .index s') ∨
+    HitsLimit bc ∨
     match evalB F r {} with
     | .val () st' => ∃ Γ' D mv n, VR (lookupD D) Γ' st'.last mv ∧ st'.out = [] ∧
         ∀ k, ∃ s', runSteps bc.code (n + k) (VM.start {} bc) = .value mv s'
